@@ -251,10 +251,13 @@ func (x Expr) Has(data any) bool {
 					}
 				}
 			default:
-				if v, has = reflectGetWildOne(tv); has {
-					if int(fi) == len(x)-1 { // last one
+				if int(fi) == len(x)-1 { // last one
+					if _, has = reflectGetWildOne(tv); has {
 						return true
 					}
+					continue
+				}
+				for _, v = range reflectGetWild(tv) {
 					switch v.(type) {
 					case nil, bool, string, float64, float32,
 						int, uint, int8, int16, int32, int64, uint8, uint16, uint32, uint64,
